@@ -9,9 +9,9 @@
    (d) the variant of the period-stepping loop and the guard that makes it apply.
    Property theorems only. *)
 From Coq Require Import String.
-From LedgerV Require Import Base.Prelude Base.Round Model.Amount Model.Buffers Model.Nesting Model.Stepping Model.FormatRef Model.Aliases Model.Selection Model.Recursion
+From LedgerV Require Import Base.Prelude Base.Round Model.Amount Model.Buffers Model.Nesting Model.Stepping Model.FormatRef Model.Aliases Model.Selection Model.Recursion Model.UnknownPayee Model.Width
   Gen.BufferSites Gen.SafetyGuards Gen.DepthEdges
-  Proofs.BuffersProofs Proofs.NestingProofs Proofs.DivGuardProofs Proofs.SteppingProofs Proofs.FormatRefProofs Proofs.AliasesProofs Proofs.SelectionProofs Proofs.RecursionProofs.
+  Proofs.BuffersProofs Proofs.NestingProofs Proofs.DivGuardProofs Proofs.SteppingProofs Proofs.FormatRefProofs Proofs.AliasesProofs Proofs.SelectionProofs Proofs.RecursionProofs Proofs.UnknownPayeeProofs Proofs.WidthProofs.
 Import List.
 Local Open Scope Z_scope.
 
@@ -293,6 +293,101 @@ Theorem alias_wrong_record_never_ends :
 Proof. exact wrong_record_never_ends_proof. Qed.
 Print Assumptions alias_wrong_record_never_ends.
 
+(* ================= (f') the payee look-up for accounts called Unknown ================= *)
+
+(* journal_t::register_account with the tests the SOURCE makes before it reads
+   post->xact->payee (the translator recognises `post && post->xact &&` in front of the match):
+   whatever the account name, the table of `payee` sub-directives and the registrant - an account
+   directive (no posting), a posting of an automated or periodic transaction or one generated by
+   extend_xact (no transaction), a posting of a dated transaction - no null pointer is read. *)
+Theorem unknown_payee_lookup_never_null :
+  forall name maps who, register_unknown src_unknown_payee_tests_post_and_xact name maps who <> NullDeref.
+Proof. exact guarded_never_null. Qed.
+Print Assumptions unknown_payee_lookup_never_null.
+
+(* why the test of post->xact matters: without it every posting without a transaction to an
+   account ...:Unknown reads the null pointer once the table has an entry - and nothing else
+   depends on the test *)
+Theorem unknown_payee_unguarded_null :
+  forall name m maps, last_is_unknown name = true ->
+    register_unknown false name (m :: maps) PostNoXact = NullDeref.
+Proof. exact unguarded_null. Qed.
+Print Assumptions unknown_payee_unguarded_null.
+
+Theorem unknown_payee_test_matters_only_there :
+  forall name maps who,
+    register_unknown false name maps who <> register_unknown src_unknown_payee_tests_post_and_xact name maps who ->
+    last_is_unknown name = true /\ maps <> [] /\ who = PostNoXact.
+Proof. exact unguarded_differs_only_there. Qed.
+Print Assumptions unknown_payee_test_matters_only_there.
+
+(* what the look-up computes: a registrant without a payee keeps the account it named, an account
+   whose last segment is not Unknown is never re-routed, and a posting of a dated transaction goes
+   to the account of the FIRST table entry whose mask matches the payee *)
+Theorem unknown_payee_without_payee_keeps_name :
+  forall name maps who, who = NoPost \/ who = PostNoXact ->
+    register_unknown src_unknown_payee_tests_post_and_xact name maps who = Registered name.
+Proof. exact no_payee_keeps_name. Qed.
+Print Assumptions unknown_payee_without_payee_keeps_name.
+
+Theorem unknown_payee_other_names_untouched :
+  forall g name maps who, last_is_unknown name = false -> register_unknown g name maps who = Registered name.
+Proof. exact other_names_untouched. Qed.
+Print Assumptions unknown_payee_other_names_untouched.
+
+Theorem unknown_payee_first_match_is_first :
+  forall maps payee a,
+    first_match maps payee = Some a <->
+    exists before m after, maps = before ++ (m, a) :: after /\ mask_match m payee = true /\
+                           forall m' a', In (m', a') before -> mask_match m' payee = false.
+Proof. exact first_match_spec. Qed.
+Print Assumptions unknown_payee_first_match_is_first.
+
+Theorem unknown_payee_dated_posting_routed :
+  forall name maps payee, last_is_unknown name = true ->
+    register_unknown src_unknown_payee_tests_post_and_xact name maps (PostIn payee) =
+    Registered (match first_match maps payee with Some a => a | None => name end).
+Proof. exact dated_posting_routed. Qed.
+Print Assumptions unknown_payee_dated_posting_routed.
+
+(* non-vacuity: "Expenses:Unknown", payee "GROCER Ltd", table [^grocer -> Expenses:Food] *)
+Example unknown_payee_routes :
+  register_unknown src_unknown_payee_tests_post_and_xact [[69]; unknown_word]
+    [({| at_start := true; at_end := false; word := [103; 114; 111; 99; 101; 114] |}, [[69]; [70]])]
+    (PostIn [71; 82; 79; 67; 69; 82; 32; 76; 116; 100]) = Registered [[69]; [70]].
+Proof. reflexivity. Qed.
+
+(* ================= (f'') the columns of a name ================= *)
+
+(* unistring::width adds the answers of mk_wcwidth in a std::size_t.  When a negative answer (a
+   control character) is taken as 0 columns, a name is between 0 and length-many columns wide
+   and format_t::truncate cuts it only when it is longer than the column. *)
+Theorem unistring_width_clamped_le_length :
+  forall s, Z.of_nat (length s) < size_modulus -> 0 <= ustr_width true s <= Z.of_nat (length s).
+Proof. exact clamped_width_le_length. Qed.
+Print Assumptions unistring_width_clamped_le_length.
+
+Theorem unistring_cut_only_when_longer :
+  forall s columns, Z.of_nat (length s) < size_modulus -> is_cut true s columns = true -> columns < Z.of_nat (length s).
+Proof. exact clamped_cut_only_when_longer. Qed.
+Print Assumptions unistring_cut_only_when_longer.
+
+(* added as they are, the answers wrap the sum around: the account "^A^A^A:B" is 2^64 - 1 columns
+   wide (F211: `reg` dies in format_t::truncate) *)
+Theorem unistring_width_le_length_refuted :
+  exists s, Z.of_nat (length s) < ustr_width false s.
+Proof. exact raw_width_exceeds_length. Qed.
+Print Assumptions unistring_width_le_length_refuted.
+
+(* and the one of the two that applies to the source as it is now *)
+Theorem unistring_width_as_in_source :
+  if src_unistring_width_clamps_negative
+  then forall s, Z.of_nat (length s) < size_modulus ->
+                 0 <= ustr_width src_unistring_width_clamps_negative s <= Z.of_nat (length s)
+  else exists s, Z.of_nat (length s) < ustr_width src_unistring_width_clamps_negative s.
+Proof. exact (width_as_in_source src_unistring_width_clamps_negative). Qed.
+Print Assumptions unistring_width_as_in_source.
+
 (* ================= (g) operands picked under a precondition computed earlier ================= *)
 
 (* xact_base_t::finalize, two-commodity block: because the loop that counts commodities_left and
@@ -387,7 +482,7 @@ Theorem source_guards_present :
   src_conversion_cycle_guard = true /\ src_expr_argument_guard = true /\ src_script_loop_guard = true /\
   src_no_xact_journal_master = true /\ src_find_account_no_frame_buffer = true /\
   src_format_field_ref_guard = true /\ src_alias_records_what_it_looks_up = true /\
-  src_finalize_pick_uses_count_predicate = true.
+  src_finalize_pick_uses_count_predicate = true /\ src_unknown_payee_tests_post_and_xact = true.
 Proof. repeat split; reflexivity. Qed.
 Print Assumptions source_guards_present.
 
